@@ -72,10 +72,9 @@ Definition gauge_read_ok (isf : bool) (cs : list crec) (g : crec) : bool :=
   | None, _ => true
   end.
 Definition small_amounts (isf : bool) (cs : list crec) : bool :=
-  forallb (fun c => match arith_amount isf (c_call c) with
-                    | Some None => false
-                    | Some (Some q) => Z.abs q <? 2 ^ 45      (* no i64 wrap-around, exact binary64 sums *)
-                    | None => true end) cs.
+  forallb (fun c => match arith_amount isf (c_call c) with Some None => false | _ => true end) cs
+  && (if isf then exact_window (map (amount0 isf) cs)                                   (* exact binary64 sums *)
+      else forallb (fun c => Z.abs (amount0 isf c) <? 2 ^ 45) cs).                       (* no i64 wrap-around *)
 
 Definition search_limit11 : nat := 12.
 
